@@ -78,7 +78,7 @@ def check(ctx):
         for mname in sorted(set(m_ for m_, n in uses.get(c, []))):
             # gated summary of the consuming method (private helpers inlined, literal tables unrolled, setattr as a store): a store into
             # `.attr` whose value or condition depends on the annotation
-            CS = gsa.summarise(ctx, MT, 'MainTransformer.' + mname)
+            CS = gsa.summarise(ctx, MT, 'MainTransformer.' + mname, depth=1)
             for e in gsa.find(CS, 'store', r'\.%s$' % attr):
                 if crx.search(e.value) or any(crx.search(a_) for a_ in gsa.atoms(e.cond)):
                     ok = True
